@@ -157,6 +157,9 @@ func (t *Target) denyByIP(ip net.IP) bool {
 // ProcessAccessRules processes access rules from options specified on the target route
 func (t *Target) ProcessAccessRules() error {
 	if t.Opts["allow"] != "" && t.Opts["deny"] != "" {
+		// fail closed: an unsupported combination must not leave the target
+		// unrestricted. An empty allow list admits nobody.
+		t.accessRules = map[string][]interface{}{ipAllowTag: {}}
 		return errors.New("specifying allow and deny on the same route is not supported")
 	}
 
